@@ -61,6 +61,8 @@ pub struct Case18 {
     pub extra: Vec<(String, String)>,
     /// the mapped (plain) name is also defined in the project: "" | struct | nested | enum | newtype
     pub local: String,
+    /// see `tool::Cfg::route`
+    pub route: String,
 }
 
 /// a local serde definition of the mapped name; `nested` reaches a type only through it
@@ -91,7 +93,7 @@ pub fn check_case(c: &Case18, stats: &mut Stats) -> Vec<Failure> {
     must_parse("src/lib.rs", &src);
     let mut table = vec![(c.name.clone(), c.target.clone())];
     table.extend(c.extra.iter().cloned());
-    let cfg_b = Cfg { mode: c.mode.clone(), type_mappings: table.clone(), ..Default::default() };
+    let cfg_b = Cfg { mode: c.mode.clone(), type_mappings: table.clone(), route: c.route.clone(), ..Default::default() };
     let out_b = generate(&[("src/lib.rs".into(), src.clone())], &cfg_b);
     // reference run
     let (ref_src, ref_cfg, ref_name) = if c.generic {
@@ -106,6 +108,10 @@ pub fn check_case(c: &Case18, stats: &mut Stats) -> Vec<Failure> {
     must_parse("src/lib.rs", &ref_src);
     let out_a = generate(&[("src/lib.rs".into(), ref_src.clone())], &ref_cfg);
     let mut base_tags = vec![format!("mode={}", c.mode), format!("wrap={}", c.wrap), format!("source={}", if c.generic { "generic" } else { "plain" }), format!("name={}", c.name), format!("target={}", c.target)];
+    if !c.route.is_empty() {
+        base_tags.push(format!("route={}", c.route));
+        stats.label(&format!("route={}", c.route));
+    }
     if !c.local.is_empty() && !c.generic {
         base_tags.push(format!("local={}", c.local));
         stats.label(&format!("local={}", c.local));
@@ -267,9 +273,9 @@ pub fn grid() -> Vec<Case18> {
         for w in WRAPS {
             for mode in ["none", "zod"] {
                 let plain = PLAIN_NAMES[(ti + w.len()) % PLAIN_NAMES.len()];
-                out.push(Case18 { name: plain.into(), generic: false, target: target.to_string(), wrap: w.to_string(), mode: mode.into(), extra: vec![], local: String::new() });
+                out.push(Case18 { name: plain.into(), generic: false, target: target.to_string(), wrap: w.to_string(), mode: mode.into(), extra: vec![], local: String::new(), route: String::new() });
                 let gen = GENERIC_NAMES[(ti + w.len()) % GENERIC_NAMES.len()];
-                out.push(Case18 { name: gen.into(), generic: true, target: target.to_string(), wrap: w.to_string(), mode: mode.into(), extra: vec![("Unrelated".into(), "number".into())], local: String::new() });
+                out.push(Case18 { name: gen.into(), generic: true, target: target.to_string(), wrap: w.to_string(), mode: mode.into(), extra: vec![("Unrelated".into(), "number".into())], local: String::new(), route: String::new() });
             }
         }
     }
@@ -279,7 +285,21 @@ pub fn grid() -> Vec<Case18> {
             for mode in ["none", "zod"] {
                 let form = LOCAL_FORMS[(ti + wi) % LOCAL_FORMS.len()];
                 let plain = PLAIN_NAMES[(ti + wi) % PLAIN_NAMES.len()];
-                out.push(Case18 { name: plain.into(), generic: false, target: target.to_string(), wrap: w.to_string(), mode: mode.into(), extra: vec![], local: form.into() });
+                out.push(Case18 { name: plain.into(), generic: false, target: target.to_string(), wrap: w.to_string(), mode: mode.into(), extra: vec![], local: form.into(), route: String::new() });
+            }
+        }
+    }
+    // appended in round 8: the table reaches the generator through a file the tool wrote and read
+    // back (the typegen entry of tauri.conf.json, a stand-alone configuration file); generic
+    // source names with two arguments are spelled with the space the tool's own type strings have
+    for route in ["tauri_conf", "file"] {
+        for (ni, (name, generic)) in [("PathBuf", false), ("Decimal", false), ("DateTime<Utc>", true), ("Arc<str>", true), ("Either<String, i32>", true), ("Pair<u8, Uuid>", true)].into_iter().enumerate() {
+            for (wi, w) in ["direct", "vec", "map_value", "tuple_last", "option_vec"].into_iter().enumerate() {
+                for mode in ["none", "zod"] {
+                    let target = TARGETS[(ni + wi) % TARGETS.len()];
+                    let extra = if generic { vec![("Unrelated".to_string(), "number".to_string())] } else { vec![] };
+                    out.push(Case18 { name: name.into(), generic, target: target.to_string(), wrap: w.to_string(), mode: mode.into(), extra, local: String::new(), route: route.into() });
+                }
             }
         }
     }
@@ -301,11 +321,11 @@ fn random_case(t: &mut Tape) -> Case18 {
     let wrap = t.choose(WRAPS).to_string();
     let mode: String = if t.bool() { "zod".into() } else { "none".into() };
     let local = if !generic && t.chance(1, 3) { t.choose(LOCAL_FORMS).to_string() } else { String::new() };
-    Case18 { name, generic, target, wrap, mode, extra, local }
+    Case18 { name, generic, target, wrap, mode, extra, local, route: String::new() }
 }
 
 pub fn run(ctx: &Ctx) {
-    ctx.set_rule("mapping tables of 1-3 entries over plain (PathBuf, Uuid, UserId, Decimal) and generic (DateTime<Utc>, Arc<str>, Box<str>) source names with targets string/number/boolean; the mapped name placed at each of 16 constructor positions (wraps) of each of the 5 translation sites, both modes; grid = target x wrap x mode x {plain, generic}; plus, for plain names, the mapped name also defined in the project as a serde struct / struct reaching a further type / enum / newtype; then random cases; evaluation = one (case, site) comparison between the mapped run and its reference run; non-trivial = mapped name below a constructor or at a non-field site");
+    ctx.set_rule("mapping tables of 1-3 entries over plain (PathBuf, Uuid, UserId, Decimal) and generic (DateTime<Utc>, Arc<str>, Box<str>; in the routed part of the grid also Either<String, i32>, Pair<u8, Uuid>) source names, handed over as a configuration value or (120 grid cases) through the typegen entry of a tauri.conf.json / a stand-alone configuration file written and read back by the tool; with targets string/number/boolean; the mapped name placed at each of 16 constructor positions (wraps) of each of the 5 translation sites, both modes; grid = target x wrap x mode x {plain, generic}; plus, for plain names, the mapped name also defined in the project as a serde struct / struct reaching a further type / enum / newtype; then random cases; evaluation = one (case, site) comparison between the mapped run and its reference run; non-trivial = mapped name below a constructor or at a non-field site");
     ctx.set_exhaustive(true);
     ctx.assume("differential oracle: unmapped run with Ref N substituted by M (plain names) or a plain-name twin mapped to the same target (generic names)");
     let g = grid();
